@@ -14,9 +14,11 @@ VERIF = factsmod.VERIF
 
 
 class Ctx:
-    def __init__(self, prop, tier, facts_dir, tree_hash):
+    def __init__(self, prop, tier, facts_dir, tree_hash, config=""):
         self.prop = prop
         self.tier = tier
+        # "" = default features; "all-features" = second pass of the thorough tier (ALL_FEATURES)
+        self.config = config
         self.facts_dir = facts_dir
         self.tree_hash = tree_hash
         self.obs = []
@@ -58,6 +60,10 @@ class Ctx:
         return self._tables[which]
 
     def ref(self, name):
+        if self.config:
+            p = os.path.join(VERIF, "ref", self.config, name)
+            if os.path.exists(p):
+                return json.load(open(p))
         return json.load(open(os.path.join(VERIF, "ref", name)))
 
     def rule(self, rid, text):
@@ -103,6 +109,22 @@ def run_check(prop, tier):
         mod.run(ctx)
     except Exception as e:
         ctx.ob("runner", "ANALYSIS-ERROR/run", False, "%s: %s | %s" % (type(e).__name__, e, traceback.format_exc(limit=4).replace("\n", " / ")))
+    configs = ["default features, host target"]
+    if tier == "thorough":
+        # second pass: the same rules over the facts of the build with every optional feature that changes library code
+        try:
+            d2, h2 = factsmod.ensure_facts(features=factsmod.ALL_FEATURES)
+            ctx2 = Ctx(prop, tier, d2, h2, config="all-features")
+            mod.run(ctx2)
+            for o in ctx2.obs:
+                o["key"] = "all-features: " + o["key"]
+            ctx.obs += ctx2.obs
+            ctx.floors.update({"all-features: " + k: v for k, v in ctx2.floors.items()})
+            ctx.notes += ["all-features: " + x for x in ctx2.notes]
+            ctx.analysed["all_features_tree_hash"] = h2
+            configs.append("features " + factsmod.ALL_FEATURES)
+        except Exception as e:
+            ctx.ob("runner", "ANALYSIS-ERROR/all-features", False, "%s: %s | %s" % (type(e).__name__, e, traceback.format_exc(limit=4).replace("\n", " / ")))
     known = load_known()
     kf = {(f["property"], f["rule"], f["key"]): f for f in known.get("findings", []) if f.get("status", "finding") == "finding"}
     violations = []
@@ -141,7 +163,7 @@ def run_check(prop, tier):
         "samples": samples,
         "obligations": len(ctx.obs),
         "discharged": len(holds) + len(reported_known),
-        "analysed": dict(ctx.analysed, tree_hash=h, crates=factsmod.CRATES, configs=["default features, host target"]),
+        "analysed": dict(ctx.analysed, tree_hash=h, crates=factsmod.CRATES, configs=configs),
         "floors": ctx.floors,
         "known_findings_reported": [o["rule"] + " " + o["key"] for o in reported_known],
         "exhaustive": True,
